@@ -50,7 +50,14 @@ def models(tier):
     two += [("ans", 0), ("ans", 1), ("ans", 2), ("tick", 2)]
     m4 = monitors.ScenarioModel("two-ready-connections", BASE, two, [monitors.AnswerMonitor], max_socks=2,
                                 prelude=[("accept",), ("m", 0, "cer_p0"), ("accept",), ("m", 1, "cer_p1")])
-    out = [m1, m1r, m1n, m1w, m2, m3, m4]
+    # one peer with two connections (both ready, or the second one arriving later): an answer belongs to the socket its request came from
+    same = [("accept",), ("m", 2, "cer_p0"), ("tick", 2)]
+    for c in (0, 1):
+        same += [("m", c, "req"), ("eof", c), ("m", c, "dpr")]
+    same += [("ans", 0), ("ans", 1), ("ans2", 0)]
+    m5 = monitors.ScenarioModel("one-peer-several-connections", BASE, same, [monitors.AnswerMonitor], max_socks=3,
+                                prelude=[("accept",), ("m", 0, "cer_p0"), ("accept",), ("m", 1, "cer_p0")])
+    out = [m1, m1r, m1n, m1w, m2, m3, m4, m5]
     # a second deterministic scheduling policy (the I/O thread runs only when nothing else can): thorough tier
     if tier == "thorough":
         out = monitors.with_io_last(out)
